@@ -189,6 +189,7 @@ def _get_piecewise_breakpoints(
     :param hot_stream: True if the stream is hot, False if the stream is cold.
     :returns: Simplified array of breakpoints that define the piecewise linearisation.
     """
+    requested_epsilon = epsilon
     for _ in range(10):
         pw_points = _rdp(curve, epsilon=epsilon)
 
@@ -203,5 +204,9 @@ def _get_piecewise_breakpoints(
             epsilon = epsilon * 0.9
         else:
             break
+    else:
+        # The refinement never met the tolerance (e.g. a profile with a vertical step, for
+        # which T(h) is not single valued): keep the plain RDP breakpoints, which do.
+        pw_points = _rdp(curve, epsilon=requested_epsilon)
 
     return pw_points
